@@ -241,8 +241,10 @@ def crafted(rng, data, n):
                 struct.pack_into("<H", img, off + 32 + 12, rng.choice([0, 8, 64, 128, 256, 7]))
                 refix(img, off)
                 emit("entry_size", img)
-    rng.shuffle(out)
-    out = out[:max(8, n // 2)]
+    cyc = [x for x in out if x[0].startswith("cycle")]
+    oth = [x for x in out if not x[0].startswith("cycle")]
+    rng.shuffle(oth)
+    out = cyc + oth[:max(8, n // 2)]
     # random: one 8-byte word of a header or of a payload set to an interesting value
     while len(out) < n:
         (off, tag, meta, plen) = rng.choice(cks)
